@@ -83,7 +83,7 @@ def build_spec(c, seed, model):
         # leave the combination exactly as the configuration says
         pass
     spec["run_kwargs"] = run_kwargs
-    spec["changes"] = [f"{ch['name']}={ch['value']}" for ch in changes]
+    spec["changes"] = sorted(f"{ch['name']}={ch['value']}" for ch in changes)
     spec["predicted_rejected"] = bool(c["rejected"])
     return spec
 
